@@ -170,6 +170,40 @@ where
         }
         hint_check(&it, cursor, obs, &format!("after step {n}"));
     }
+    // from the position reached, the terminal consumers deliver what repeated next() would: the items load(cursor..)
+    let rest: Vec<u32> = (cursor..total).map_while(|i| model_load(&init.data, init.bpp, init.be, i)).collect();
+    let rebuild = || {
+        let mut it = RawDataSlice::<R, BO>::new(&init.data).into_iter();
+        for a in hist {
+            match a {
+                IAct::Next => {
+                    it.next();
+                }
+                IAct::Nth(k) => {
+                    it.nth(k.parse::<u128>().unwrap() as usize);
+                }
+            }
+        }
+        it
+    };
+    let conv = |r: R| -> u32 { r.into_inner().into() };
+    let last = rebuild().last().map(conv);
+    let count = rebuild().count();
+    let folded: Vec<u32> = rebuild().fold(vec![], |mut v, r| {
+        v.push(conv(r));
+        v
+    });
+    let mut looped = vec![];
+    let mut it2 = rebuild();
+    while let Some(r) = it2.next() {
+        looped.push(conv(r));
+        if looped.len() > rest.len() + 2 {
+            break;
+        }
+    }
+    if last != rest.last().copied() || count != rest.len() || folded != rest || looped != rest {
+        obs.fail("terminal-consumers-agree-with-next", format!("after {:?} (model cursor {cursor} of {total}): {} items remain; last() = {:?} (expected {:?}), count() = {count}, fold yields {} items, a next() loop {}", hist, rest.len(), last, rest.last(), folded.len(), looped.len()));
+    }
 }
 
 impl Model for IM {
@@ -261,7 +295,7 @@ fn main() {
     egverif::fw::main(Prop {
         id: "C11",
         level: "model_checking",
-        rule: "store/load: every (type, order, buffer length, index, background) of the listed product, with every listed value inside the case (counter store_load_evaluations; each value built by from_u32 from the value itself and from the value with all higher bits set), compared with a bit-level model written from the documented layout; iterator: explicit-state search over all next()/nth(k) sequences to the depth bound (each sequence is its own state), every item compared with load(model cursor), size_hint checked at every state; the whole domain is run in the overflow-checked and in the plain release build",
+        rule: "store/load: every (type, order, buffer length, index, background) of the listed product, with every listed value inside the case (counter store_load_evaluations; each value built by from_u32 from the value itself and from the value with all higher bits set), compared with a bit-level model written from the documented layout; iterator: explicit-state search over all next()/nth(k) sequences to the depth bound (each sequence is its own state), every item compared with load(model cursor), size_hint checked at every state, and from every state last(), count(), fold and a next() loop (each on a re-executed iterator) compared with load(cursor..); the whole domain is run in the overflow-checked and in the plain release build",
         assumptions: &["layout model written from the documentation, independent of the library's bit_position", "bounded buffer lengths and depth; 24/32-bit values are a boundary set"],
         parts: |_| vec![PartSpec::new("checked", "verif"), PartSpec::new("unchecked", "release")],
         run_part,
